@@ -113,11 +113,11 @@ CHECKS = {
     note=TB + "; functions in tables/cap_reach.json (4 clearing writes: strnset_s, wcsnset_s, wcsfc_s, wcsnorm_compose_s) are not analysed"),
  "C17": dict(
     engine="capcheck",
-    technique="bounded-index obligations on the plane-table loads (cp >> 16 into 17-entry arrays), discharged inside the lookup helper or turned into a precondition that every call site must entail, followed through private helpers to the exported entry points; interval-partition abstract interpretation of iswfc's comparison tree against the constant folding tables read by towfc_s",
+    technique="bounded-index obligations on the plane-table loads (cp >> 16 into 17-entry arrays), discharged inside the lookup helper or turned into a precondition that every call site must entail, followed through private helpers to the exported entry points; interval-partition abstract interpretation of iswfc's comparison tree against the constant folding tables read by towfc_s; reader/table agreement of the generated normalisation tables (pointer and integer tables exported from the IR; interval-set reachability for the layout selector; constant folding of the reader's decode arithmetic over all stored values; composition/decomposition inverse check)",
     category="other",
-    text="Decides the clause 'code points above U+10FFFF are rejected rather than used as table indices' for every input string: each plane-table access is bounded where it happens or at all call sites of its helper. The iswfc/towfc_s agreement is decided for the multi-character foldings: iswfc touches its argument only through comparisons with constants, so its decision tree is evaluated exactly over the interval partition those constants induce; the code points it announces as 2 resp. 3 characters are exactly the key columns of towfc_s's 2- resp. 3-character tables (88 and 16 entries), the tables are strictly ascending and zero-terminated (the search stops at the first larger key), and a hit stores k+1 elements and returns k. Conformance of normalisation and folding to the Unicode standard, idempotence and the single-character cases (libc iswupper/towlower) are not decided.",
+    text="Decides the clause 'code points above U+10FFFF are rejected rather than used as table indices' for every input string: each plane-table access is bounded where it happens or at all call sites of its helper. The iswfc/towfc_s agreement is decided for the multi-character foldings: iswfc touches its argument only through comparisons with constants, so its decision tree is evaluated exactly over the interval partition those constants induce; the code points it announces as 2 resp. 3 characters are exactly the key columns of towfc_s's 2- resp. 3-character tables (88 and 16 entries), the tables are strictly ascending and zero-terminated (the search stops at the first larger key), and a hit stores k+1 elements and returns k. Table agreement of the normalisation tables, exhaustive over every table entry: (L) each of the 442 composition lists is walked with the element size it is stored in (the 16-/32-bit layout selector, decided by interval-set reachability over the reader's comparisons), is reachable, strictly ascending and zero-terminated; (K) the searched code point is not truncated before the key comparison; (D) every packed (length, index) value stored in the three-level canonical decomposition table decodes, with the reader's own shifts, masks and address arithmetic constant-folded over the table contents, to exactly one row of an existing value table, the returned length is the row width, and every row is referenced; (I) the composition lists are the inverse of the stored decompositions (1022 pairs). The reorder/compose algorithm itself (blocking, combining classes), Hangul arithmetic, the identity of the tables with the UCD, and the single-character folding cases (libc iswupper/towlower) are not decided.",
     design_ref="DESIGN.md §3.2, §4 C17",
-    note=TB + "; 32-bit wchar_t configuration; one fix: commit in /repo (two crashes on out-of-range code points)"),
+    note=TB + "; 32-bit wchar_t configuration; two fix: commits in /repo (two crashes on out-of-range code points; second code point truncated to 16 bits before the composition-list comparison); one known finding (U+037E stored as the reserved value 0: not decomposed; the repair contradicts an expectation pinned in the unedited test suite)"),
  "C06": dict(
     engine="pathflags",
     technique="path-sensitive abstract interpretation with a 'destination budget exhausted before a terminator was copied' flag over the 10 non-truncating copy/concatenate functions; plus (in C05) a checked precondition 'measured strlen(src) < dmax' where the result of a nested copy is ignored; terminator-position typestate for the pointer-returning functions",
